@@ -590,6 +590,36 @@ def gen_C08(tier, rng):
             k_ = c.r("subst %d %s" % (r, toks)); c.q("obs %d" % k_)
         dist["three_var_random"] += 1
         cases.append(c.done("%s/%s" % (tv, m), True))
+    # Expression::rename_literals (substitution of variables by variables): every map with keys among {a, b, z} and
+    # values among {a, b, c, z} of at most two entries (identity, swap, merge, foreign key, chain a->b b->c) on every
+    # function of <= 2 variables in three shapes, and random maps on random trees with constants and empty nodes
+    vals = ["a", "b", "c", "z"]
+    rmaps = [[]] + [[(k, v)] for k in ["a", "b", "z"] for v in vals]
+    rmaps += [[(k1, v1), (k2, v2)] for k1, k2 in [("a", "b"), ("a", "z"), ("b", "z")] for v1 in vals for v2 in vals]
+    rtoks = lambda m: "%d%s" % (len(m), "".join(" %s %s" % (hexname(k), hexname(v)) for k, v in m))
+    for nv in range(3):
+        vs = ["a", "b"][:nv]
+        for tv in gen.all_tvs(nv):
+            for form in ["dnf", "cnf", "mix"]:
+                c = Case("c08_%d" % n); n += 1
+                r = c.r("expr " + pe(gen.expr_of_tv(vs, tv, form)))
+                for m in (rmaps if tier != "quick" or nv == 2 else rmaps[::3]):
+                    c.q("rename %d %s" % (r, rtoks(m)))
+                dist["rename"] += 1
+                cases.append(c.done("rename %s:%s/%s" % ("".join(vs), tv, form), True))
+    for _ in range(60 if tier == "quick" else 600):
+        c = Case("c08_%d" % n); n += 1
+        pool_ = ["a", "b", "c", "d", "e"]
+        r = c.r("expr " + pe(gen.rand_tree(rng, rng.randint(1, 4), pool_, max_arity=3, consts=True, empties=True)))
+        # also on the result of operations (derived operands), and renamed twice
+        r2 = c.r("op2 xor val %d %d" % (r, c.r("expr " + pe(gen.rand_tree(rng, 2, pool_, max_arity=2, consts=False, empties=False)))))
+        for reg_ in (r, r2):
+            for _k in range(3):
+                ks = rng.sample(pool_ + ["z"], rng.randint(0, 4))
+                m = sorted((k, rng.choice(pool_ + ["z", "0"])) for k in ks)
+                c.q("rename %d %s" % (reg_, rtoks(m)))
+        dist["rename_random"] += 1
+        cases.append(c.done("rename random", True))
     # wide targets (7-8 inputs, result up to 10): 2-4 keys spread over the inputs, replacements over other inputs and
     # over fresh variables shared between replacements (never over keys: that is the diagrams' documented refusal)
     for nv in ([7, 8] if tier == "quick" else [7, 8, 9]):
@@ -632,6 +662,13 @@ def gen_enum(prefix, tier, rng, maxv, pads):
             for e in es:
                 for r in three_reps(c, e):
                     c.q("enum %d" % r)
+            if prefix == "c10":
+                # the public boolean_point_to_valuation of expressions and tables: points of the right length and of
+                # the two neighbouring lengths
+                regs_ = three_reps(c, es[0])
+                for ln_ in sorted({max(nv - 1, 0), nv, nv + 1}):
+                    pb = "".join(rng.choice("01") for _ in range(ln_)) or "."
+                    c.q("p2v %d %s" % (regs_[0], pb)); c.q("p2v %d %s" % (regs_[1], pb))
             dist["vars%d" % nv] += 1
             from .diff import expand
             ess = [x for i, x in enumerate(vs) if any(tv[j] != tv[j ^ (1 << (nv - 1 - i))] for j in range(1 << nv))]
